@@ -488,6 +488,10 @@ class Interp:
                 tags = []
                 if isinstance(x, ast.If):
                     tags.append("if")
+                if isinstance(x, ast.For):
+                    tags.append("for")
+                if isinstance(x, ast.While):
+                    tags.append("while")
                 if isinstance(x, (ast.Expr, ast.Assign)) and isinstance(x.value, ast.Call) and isinstance(x.value.func, ast.Attribute):
                     tags.append("call:" + x.value.func.attr)
                 out = []
@@ -1150,7 +1154,7 @@ class Interp:
                 if mine == "*":
                     continue
                 if lst == "*":
-                    u.oblige(st, z3.BoolVal(False), "frame", "%s writes all of %s" % (qname, k), c.props | {"C14"}, where=where)
+                    u.oblige(st, z3.BoolVal(False), "frame", "%s writes all of %s" % (qname, k), u.contract.props | {"C14"}, where=where)
                     continue
                 for ent in lst:
                     if isinstance(ent[0], str) and ent[0] == "where":
@@ -1210,6 +1214,20 @@ class Interp:
                         except Unsupported:
                             b2[wv] = Val(fresh("wit_" + wv, sort_of(wt)), wt)
                 st.pc.append(self.spec(e.text, st, fr2, old=pre, binds=b2))
+            if fresh_self:
+                # the objects this constructor allocated occupy [pre.next, st.next): their slots were not havoced (see above),
+                # so the closed-heap / typed-heap facts of the arrays have to be restated for the new allocation bound
+                for key in sorted(set(st.heap) | set(u.base)):
+                    if key[:2] != "f:" and key[:4] != "elt:":
+                        continue
+                    try:
+                        ty = u.key_ty(key)
+                    except KeyError:
+                        continue
+                    A = u.get_arr(st, key, ty)
+                    st.pc += u.array_axioms(key, A, st.next, ty)
+                    if key[:4] == "elt:" and reflike(ty) and not ty.opt:
+                        st.pc.append(u.nonnull_axiom(u.get_arr(st, "len:" + key[4:]), A, st.next))
         finally:
             st.locals = saved
         return res
